@@ -374,5 +374,9 @@ func c06FieldOps() []h.DiffOp {
 }
 
 func TestC06Field(t *testing.T) {
-	h.RunDiffOps(t, "internal/field", h.DiffBackend("field-limbs="+c06Limbs), c06FieldOps())
+	mul := "mul/pow2k=assembly(amd64)"
+	if tags := h.DiffBuildTags(); tags != "" { // purego: field_u64_generic.go; force32bit: field_u32.go
+		mul = "mul/pow2k=go"
+	}
+	h.RunDiffOps(t, "internal/field", h.DiffBackend("field-limbs="+c06Limbs+" "+mul), c06FieldOps())
 }
